@@ -22,9 +22,10 @@ type ByteMut struct {
 
 // Spec is a JSON-serialisable description of one pubsub message.
 type Spec struct {
-	Val     int    `json:"val"`      // validator index in the fixture
-	Role    int    `json:"role"`     // numeric BeaconRole (may be invalid)
-	SSVType string `json:"ssv_type"` // consensus partial event dkg unknown
+	Val     int    `json:"val"`              // validator index in the fixture
+	PKAlt   []byte `json:"pk_alt,omitempty"` // if set: this validator public key instead of the fixture validator's (message id and topic follow it)
+	Role    int    `json:"role"`             // numeric BeaconRole (may be invalid)
+	SSVType string `json:"ssv_type"`         // consensus partial event dkg unknown
 	DomainX bool   `json:"domain_x,omitempty"`
 
 	// consensus
@@ -175,7 +176,11 @@ func (s *Spec) Build(e *valfx.Env, signed bool) (string, []byte, time.Time) {
 	if s.DomainX {
 		domain[0] ^= 0xff
 	}
-	msgID := spectypes.NewMsgID(domain, v.PK, spectypes.BeaconRole(s.Role))
+	pk := v.PK
+	if len(s.PKAlt) > 0 {
+		pk = s.PKAlt
+	}
+	msgID := spectypes.NewMsgID(domain, pk, spectypes.BeaconRole(s.Role))
 	msg := &spectypes.SSVMessage{MsgID: msgID}
 	slot := s.Slot(e)
 	switch s.SSVType {
@@ -251,7 +256,7 @@ func (s *Spec) Build(e *valfx.Env, signed bool) (string, []byte, time.Time) {
 	}
 	enc = applyMuts(enc, s.OuterMuts)
 
-	topic := valfx.Topic(v.PK)
+	topic := valfx.Topic(pk)
 	switch s.Topic {
 	case "wrong":
 		ts := commons.Topics()
